@@ -29,10 +29,11 @@ PROPS = {
     "C02": dict(engine="capisim", profiles=["c_readers", "c_readers", "c_readers_refs", "c_writers"], quick_runs=1600, slice=20, thorough_s=600, fit="weak", run_timeout=120),
     "C18": dict(engine="hybridsim", profiles=["hybrid", "hybrid", "hybrid_moves", "hybrid_restart"], quick_runs=5000, slice=50, thorough_s=600, fit="native"),
     "C19": dict(engine="hybridsim", profiles=["hybrid_dict", "hybrid_dict", "json"], quick_runs=5000, slice=50, thorough_s=300, fit="weak"),
+    "C15": dict(engine="accsim", profiles=["accessors"], quick_runs=480, slice=6, thorough_s=900, fit="weak", run_timeout=300),
     "C16": dict(engine="devsim", profiles=["kernels"], quick_runs=640, slice=8, thorough_s=900, fit="native", run_timeout=180),
     "C14": dict(engine="depsim", profiles=["builds"], quick_runs=1200, slice=20, thorough_s=600, fit="weak", run_timeout=180),
     "C17": dict(engine="capisim", profiles=["c_calls"], quick_runs=1600, slice=20, thorough_s=600, fit="seam", run_timeout=120),
-    "C07": dict(engine="capisim", profiles=["c_writers", "c_writers", "c_writers", "c_readers_refs"], quick_runs=1600, slice=20, thorough_s=900, fit="weak", run_timeout=120),
+    "C07": dict(engine="capisim", profiles=["c_writers", "c_writers", "sanitize", "c_writers", "c_readers_refs", "sanitize"], quick_runs=1200, slice=20, thorough_s=900, fit="weak", run_timeout=120),
 }
 
 _ENGINES = {}
@@ -52,6 +53,10 @@ def get_engine(name):
             from .capisim import CApiSim
 
             _ENGINES[name] = CApiSim()
+        elif name == "accsim":
+            from .accsim import AccSim
+
+            _ENGINES[name] = AccSim()
         elif name == "depsim":
             from .depsim import DepSim
 
